@@ -41,7 +41,7 @@ theorem restart_hardState {val : Val} {voters : List Id} {c : Cluster} {s : Spec
     (hsorted : voters.Pairwise (· < ·)) (h0 : 0 ∉ voters) (hne : voters ≠ [])
     (hR : RSD val voters c s) {n : Nat} {rn rn' : RawNode} {cfg : Config} {draws : List Nat}
     (hn : c.nodes n = some rn) (hnv : ∀ m ∈ rn.raft.msgs, m.typ ≠ .vote)
-    (hid : cfg.id = n) (hpv : cfg.preVote = false) (hcq : cfg.checkQuorum = false)
+    (hid : cfg.id = n) (hpv : cfg.preVote = false)
     (has : cfg.asyncStorageWrites = false) (happ : cfg.applied = 0)
     (hnew : RawNode.new cfg rn.raft.log.storage draws = .ok rn') :
     RawNode.hardState rn'.raft = storedHS rn ∧ storedHS rn' = storedHS rn := by
@@ -58,7 +58,7 @@ theorem restart_hardState {val : Val} {voters : List Id} {c : Cluster} {s : Spec
     · exact absurd hmt (hnv m hm)
   have hD := hR.dur n rn hn
   obtain ⟨a1, _, _, _, _, a6⟩ := restart_nodeInv hnode (hR.rs.settled n rn hn) hD hsorted h0
-    hid hpv hcq has happ hle hrv hnew
+    hid hpv has happ hle hrv hnew
   have A := a1.inv.abs
   have hsto : rn'.raft.log.storage.hardState.getD {} = rn.raft.log.storage.hardState.getD {} := by
     apply hardState_ext
@@ -113,9 +113,9 @@ theorem envstep_node {val : Val} {voters : List Id} {c c' : Cluster} {s : Spec.S
     have hnode := hR.rs.ra.base.nodes n rn hn
     exact .sync (syncRound_hsMono hnode (hR.rs.settled n rn hn) (hR.rs.prom n rn hn) hrun)
       (syncRound_stored hnode (hR.rs.settled n rn hn) (hR.dur n rn hn) hrun)
-  | crash n rn rn' cfg draws hn hnv hid hpv hcq has happ hnew =>
+  | crash n rn rn' cfg draws hn hnv hid hpv has happ hnew =>
     refine ⟨n, rn, rn', hn, hself n rn', hoth n rn', ?_⟩
-    obtain ⟨h1, h2⟩ := restart_hardState hsorted h0 hne hR hn hnv hid hpv hcq has happ hnew
+    obtain ⟨h1, h2⟩ := restart_hardState hsorted h0 hne hR hn hnv hid hpv has happ hnew
     exact .crash h1 h2
 
 end RaftVerif.SimCorP
